@@ -18,8 +18,10 @@ PROPS = {
         check_module="C08Check",
         theorems={
             "C08_resolve_outcomes": [],
-            "C08_resolve_direct_agrees_partial": [],
-            "C08_resolve_direct_miss_partial": [],
+            "C08_resolve_agrees": [],
+            "C08_resolve_sound": [],
+            "C08_resolve_complete": [],
+            "C08_resolve_errors": [],
             "C08_duplicate_name_rejected": [],
             "C08_std_module_rejected": [],
             "C08_no_main_rejected": [],
@@ -28,6 +30,17 @@ PROPS = {
             "C08_import_errors": [],
             "C08_front_end_error": [],
             "C08_jump_table": [],
+            "C08_compile_table_matches": [],
+            "C08_ir_stream_is_tree": [],
+            "C08_entry_is_position": [],
+            "C08_call_resolves": [],
+            "C08_every_call_resolves": [],
+            "C08_resolve_error_is_unresolved_call": [],
+            "C08_label_points_to_body": [],
+            "C08_label_of_position": [],
+            "C08_example_super_spec": [],
+            "C08_example_super_compiled": [],
+            "C08_example_super_label": [],
             "C08_call_target_meta": [],
             "C08_function_label_at_start": [],
             "C08_label_kept_by_card_labels": [],
@@ -40,8 +53,15 @@ PROPS = {
         gates=["obs.ran", "obs.err.InvalidJump", "obs.err.SuperLimitReached", "obs.err.DuplicateModule", "obs.err.NoMain",
                "obs.err.AmbigousImport", "obs.err.BadImport", "name.absolute", "name.bare", "name.import_fn",
                "name.import_module", "name.import_module_super", "name.relative", "name.garbage", "site.function_value",
-               "site.static_call", "caller.depth0", "caller.depth1", "caller.depth2", "import.super"],
-        rule="random module trees (depth <= 3, the same six function names reused in every module, sibling / parent / child "
+               "site.static_call", "caller.depth0", "caller.depth1", "caller.depth2", "import.super",
+               "corner.super_only_import_fn", "corner.super_only_import_module", "corner.super_only_import_limit",
+               "corner.import_target_missing", "corner.module_import_target_missing", "corner.priority_absolute",
+               "corner.priority_own_module", "corner.priority_import", "corner.priority_relative_over_module_import"],
+        rule="nine planted corner cases of the lookup order (imports made of `super` segments only - function import, module import, "
+             "one `super` too many; an import whose key matches but whose target is missing, for both import rules; the priority "
+             "absolute > own module > import with the same name declared in all three places, in two, in one; a relative dotted "
+             "path against a module import of the same first segment), then "
+             "random module trees (depth <= 3, the same six function names reused in every module, sibling / parent / child "
              "imports of functions and of modules with 0-3 `super.`, too many `super.`, a module called xsuper) with ONE call "
              "site each (static Call or Function value + DynamicCall, from a function of a random module) naming its target "
              "absolutely, barely, relatively, through a function import, through a module import, or by garbage; plus planted "
@@ -56,14 +76,20 @@ PROPS = {
         trusted_base=COMMON_TB + [
             "modelled, not verified: compiler.rs resolve_function / super_depth / add_function / compile_stage_2, compiler/module.rs "
             "(into_ir_stream, flatten_module, execute_imports, is_name_valid, ensure_invariants)",
-            "the specification ResolveSpec.v is a hand-written reading of the documented lookup order",
+            "the specification ResolveSpec.v is a hand-written reading of the documented lookup order; an import path is read as "
+            "super* . module path . NAME (its last segment is the imported name, never a `super` step): planted corner cases "
+            "(imports made of `super` segments only) confirm that the crate behaves so",
             "which body ran is observed through globals written by the generated bodies, on the real Vm (vm.rs), 100000-instruction budget"],
         assumptions=[
             "module and function names of generated trees are ASCII identifiers (module names are not validated by the compiler; "
-            "a module name containing '.' makes full names ambiguous and is outside the specification)",
-            "resolve_sound / resolve_complete are proved for the absolute and own-module rules under the hypothesis table_matches "
-            "(jump table = functions of the tree); the import rules are covered by the correspondence run only",
-            "label distinctness (32-bit handles of functions and closures pairwise distinct) is a hypothesis of the label theorems",
+            "a module name containing '.' makes full names ambiguous and is outside the specification): the theorems carry the "
+            "decidable hypothesis module_names_dotfree",
+            "C08_resolve_agrees / _sound / _complete / _errors (all four rules, priority and error cases included) have the hypothesis "
+            "table_matches, which C08_compile_table_matches establishes for the jump table of every module that compiles",
+            "C08_call_resolves describes the call skeleton (FunctionPointer / CallFunction instructions in program order); the other "
+            "instructions of the program are the subject of C10",
+            "label distinctness (32-bit keys of function and closure labels pairwise distinct) is the decidable hypothesis "
+            "label_keys_distinct of the label theorems; main has no label (a static call of main compiles but fails at run time)",
         ],
     ),
     "C10": dict(
